@@ -2,7 +2,7 @@
 ARENA = dict(harness=['h_arena.cpp'], repo_units=['asmjit/support/arena.cpp'], extra_c=['stubs_arena.c'])
 UNITS = [
     Unit('arena', **ARENA),
-    Unit('nodes', harness=['h_nodes.cpp'], repo_units=['asmjit/support/arena.cpp'], extra_c=['stubs_arena.c']),
+    Unit('nodes', harness=['h_nodes.cpp'], repo_units=[]),
 ]
 # loops of the arena functions (block chain walks): the chains of the single-block harnesses are at most 2 long
 def arena_loops(n):
@@ -13,6 +13,11 @@ def leftover_loops(n):
 def tree_loops(n):
     fns = {'_ZL14tree_do_insertRN6asmjit5v1_219ArenaTreeI5TNodeEEPS2_': 8, '_ZL14tree_do_removeRN6asmjit5v1_219ArenaTreeI5TNodeEEPS2_': 10, '_ZL11tree_do_getRN6asmjit5v1_219ArenaTreeI5TNodeEEj': 1}
     return ','.join('%s.%d:%d' % (f, i, n) for f, k in fns.items() for i in range(k))
+B_HASH = '%s of 4 nodes, symbolic distinct 8-bit hash codes (collisions inside)'
+# loops of the hash harnesses that run over buckets (everything else is bounded by the node count)
+def hash_loops(nb):
+    r = '_ZN6asmjit5v1_2113ArenaHashBase7_rehashERNS0_5ArenaEj'; c = '_ZL10hash_checkILj29EEvRN6asmjit5v1_219ArenaHashI5HNodeEER6HState'
+    return ','.join(['%s.%d:%d' % (r, i, max(nb + 1, 7)) for i in range(6)] + ['%s.%d:31' % (c, i) for i in range(12)])
 B_ONE = 'one 128-byte heap block, 8-aligned cursor symbolic, block-size shift 7'
 B_CHAIN = 'chain of 1..3 heap blocks (payload 128/64/256), current block and 8-aligned cursor symbolic, block-size shift 7..8'
 HARNESSES = [
@@ -33,11 +38,18 @@ HARNESSES = [
     Harness('nodes', 'h_tree_remove_d2', unwind=17, unwindset=tree_loops(5), bounds='any valid red-black tree of 1..3 nodes (height <= 2); remove of any node', mem_gb=6, timeout=900),
     Harness('nodes', 'h_tree_insert_d3', unwind=33, unwindset=tree_loops(6), tiers=('thorough',), bounds='any valid red-black tree of 0..5 nodes (height <= 3); insert of any new key, then lookup of any key', mem_gb=8, timeout=3000),
     Harness('nodes', 'h_tree_remove_d3', unwind=33, unwindset=tree_loops(6), tiers=('thorough',), bounds='any valid red-black tree of 1..5 nodes (height <= 3); remove of any node', mem_gb=8, timeout=3000),
-    Harness('nodes', 'h_hash_mod', unwind=4, bounds='all 2^32 hash codes x all 129 primes of the table', mem_gb=4, timeout=900),
-    Harness('nodes', 'h_hash_embedded', unwind=61, bounds='embedded single bucket with 0..1 of 4 nodes, symbolic distinct hash codes; insert (incl. the rehash to 29 buckets) / remove of any of 5 nodes / rehash to 11 buckets', mem_gb=6, timeout=900),
-    Harness('nodes', 'h_hash_p11', unwind=61, bounds='11 buckets with 0..4 of 4 nodes, symbolic distinct hash codes (collisions inside); insert / remove of any of 5 nodes / rehash to 41 buckets', mem_gb=6, timeout=900),
-    Harness('nodes', 'h_hash_p29', unwind=61, tiers=('thorough',), bounds='29 buckets with 0..4 of 4 nodes; insert / remove / rehash to 59 buckets', mem_gb=8, timeout=1800),
+] + [
+    Harness('nodes', 'h_hash_mod_%d' % k, unwind=4, bounds='all 2^32 hash codes x table entries %d..%d' % (8 * k, min(8 * k + 7, 128)), mem_gb=3, timeout=900,
+            tiers=('quick', 'thorough') if k == 0 else ('thorough',)) for k in range(17)
+] + [
+] + [
+    Harness('nodes', 'h_hash_%s_%s' % (tab, op), unwind=13, unwindset=hash_loops(nb), mem_gb=5, timeout=900,
+            bounds=B_HASH % pre + '; ' + what)
+    for tab, nb, pre in (('embedded', 1, 'embedded single bucket with 0..1'), ('p2', 2, '2 buckets with 0..4'), ('p11', 11, '11 buckets with 0..4'))
+    for op, what in (('insert', 'insert of a 5th node (rehash to 29 buckets when the grow threshold is passed)'), ('remove', 'remove of any of the 5 nodes (member or not)'),
+                     ('rehash', 'explicit rehash to the next table size (2 / 11 / 29 buckets)'))
 ]
 EXPLANATION = 'bounded symbolic execution (CBMC) of the real container code compiled from /repo; one operation from an arbitrary valid pre-state built in the harness, compared with an abstract model (plain arrays)'
 OUTSIDE = []
-ASSUMPTIONS = ['malloc never fails (allocation failure is C15)']
+ASSUMPTIONS = ['malloc never fails (allocation failure is C15)',
+               'hash harnesses: Arena::_alloc_reusable_zeroed is a harness stub returning a zeroed typed pool (the arena itself is checked by the h_arena_* harnesses)']
